@@ -7,7 +7,8 @@ use crate::shim;
 use lean_string::LeanString;
 use std::collections::BTreeMap;
 use std::sync::Mutex;
-use std::sync::atomic::{AtomicU64, Ordering};
+use crate::Counter64 as AtomicU64;
+use std::sync::atomic::Ordering;
 
 #[derive(Default)]
 pub struct ProbeStats {
